@@ -14,7 +14,8 @@ Driver operations of C06: the single-shot fitters.
   `err notEnoughPoints | singular | badWeights | badArg`;
 * `Q` (exact rationals) exists for `shift` and `general` only (no square root / trigonometry on
   `Rat`); `rshift` is `fit_rscale(scale=1)`;
-* the `eps` of the inverse in `general` is `numpy.finfo(numpy.double).tiny = 2^-1022`.
+* the `eps` of the inverse in `general` is `numpy.finfo(numpy.double).tiny = 2^-1022`, the
+  threshold of its collinearity guard `numpy.finfo(numpy.double).eps = 2^-52`.
 -/
 
 def fmtFit {K : Type} [Sc K] (r : Except FitErr (Lin K)) : String :=
@@ -55,12 +56,12 @@ def tinyStr : String := "1/" ++ toString ((2 : Nat) ^ 1022)
 /-- the two fitters without trigonometry -/
 def opFitLin (K : Type) [Add K] [Sub K] [Mul K] [Div K] [Neg K] [LT K] [DecidableLT K] [NatCast K] [Sc K]
     (geom : String) (args : List String) : String :=
-  match parseFit K args, (Sc.parse tinyStr : Option K) with
-  | some (obs, wxy, wuv), some eps =>
+  match parseFit K args, (Sc.parse tinyStr : Option K), (Sc.parse epsDStr : Option K) with
+  | some (obs, wxy, wuv), some eps, some epsD =>
     if geom = "shift" then fmtFit (fitShifts obs wxy wuv)
-    else if geom = "general" then fmtFit (fitGeneral eps obs wxy wuv)
+    else if geom = "general" then fmtFit (fitGeneral eps epsD obs wxy wuv)
     else "bad-op"
-  | _, _ => "bad-op"
+  | _, _, _ => "bad-op"
 
 /-- `fit_rscale` / `fit_rshift` -/
 def opFitSim (K : Type) [Add K] [Sub K] [Mul K] [Div K] [Neg K] [LT K] [DecidableLT K] [NatCast K]
